@@ -391,6 +391,10 @@ func runReplay(ctx *hx.Ctx, path string) {
 		var bc BatchCase
 		json.Unmarshal(doc.Replay, &bc)
 		doBatch(ctx, &bc)
+	case "synth":
+		var sc SynthCase
+		json.Unmarshal(doc.Replay, &sc)
+		doSynth(ctx, &sc)
 	case "msg":
 		var mc MsgCase
 		json.Unmarshal(doc.Replay, &mc)
@@ -423,6 +427,7 @@ func main() {
 			}
 		}
 		rnd := hx.NewRand(ctx.Seed)
+		partD(ctx, rnd.Fork(4))
 		partA(ctx, rnd.Fork(1))
 		partB(ctx, rnd.Fork(2))
 		partC(ctx, rnd.Fork(3))
